@@ -131,6 +131,7 @@ func judge(prop string, p *Plan, r *run, obs []*reqObs, res *core.Result) {
 	var sig []string
 	sig = append(sig, fmt.Sprintf("h3=%v plain=%v alpn=%d direct=%v", p.H3, p.PlainReconfigured, len(p.ClientALPN), p.Direct))
 	connUses := map[int]int{}
+	h3Keys := map[string]triple{}
 	servedHostsByEP := map[string]map[string]bool{}
 	portsByHost := map[string]map[int]bool{}
 	progress := false
@@ -309,6 +310,19 @@ func judge(prop string, p *Plan, r *run, obs []*reqObs, res *core.Result) {
 				fail("host-header", site, "%s: req.Host %q, want %q", want, h.Host, expHost)
 			} else if q.HostOverride != "" {
 				res.Probe("host_override")
+			}
+		}
+
+		// (5a) an HTTP/3 round-tripper pools its QUIC connections by the authority
+		// of the URL it is handed (quic-go's http3.Transport does): two origins
+		// that differ in scheme, host or port must never be handed the same one
+		for _, h := range h3s[i] {
+			key := h.Scheme + "://" + strings.ToLower(h.URLHost)
+			mine := originTriple(q, true)
+			if prev, ok := h3Keys[key]; ok && prev != mine {
+				fail("pool-sharing", "HTTP/3 round-tripper is handed the same URL authority (its pool key) for different scheme/host/port origins", "%s (origin %v): URL.Host %q was also used for origin %v", want, mine, h.URLHost, prev)
+			} else if !ok {
+				h3Keys[key] = mine
 			}
 		}
 
